@@ -1,4 +1,214 @@
-#[allow(dead_code, unused_imports, unused_variables, unused_mut)]
+// C12 (egress half, and reassembly through `process_ipv4`): IPv4 fragmentation on transmit.
+// Spliced into src/iface/interface/mod.rs: `Interface { inner, fragments, fragmenter }`, `dispatch_ip`,
+// `dispatch_ipv4_frag`, `ipv4_egress`, `socket_egress`, `process_ipv4` are reachable.
+//
+// Oracles are written from RFC 791 on raw frame bytes (`hdr`), not with the crate's `Ipv4Packet` accessors.
+#[allow(dead_code, unused_imports, unused_variables, unused_mut, unused_assignments)]
 mod v_iface_frag_tx {
     use super::*;
+    use crate::iface::SocketStorage;
+    use crate::phy::Checksum;
+    use crate::verif_common::*;
+    use crate::verif_dev::{CapDev, CapTx, NullDev, TxState};
+
+    const LOCAL: Ipv4Address = Ipv4Address::new(192, 168, 1, 1);
+    const REMOTE: Ipv4Address = Ipv4Address::new(192, 168, 1, 2);
+    const IPH: usize = 20;
+
+    /// RFC 791 header fields read from raw bytes (needs >= 20 bytes)
+    #[derive(Clone, Copy)]
+    struct H {
+        vihl: u8,
+        total: usize,
+        ident: u16,
+        rsv: bool,
+        df: bool,
+        mf: bool,
+        off: usize,
+        ttl: u8,
+        proto: u8,
+        src: [u8; 4],
+        dst: [u8; 4],
+        cksum_ok: bool,
+    }
+
+    fn hdr(b: &[u8]) -> H {
+        let w = |i: usize| ((b[i] as u32) << 8) | b[i + 1] as u32;
+        let fl = w(6);
+        let mut sum = w(0) + w(2) + w(4) + w(6) + w(8) + w(10) + w(12) + w(14) + w(16) + w(18);
+        sum = (sum & 0xffff) + (sum >> 16);
+        sum = (sum & 0xffff) + (sum >> 16);
+        H {
+            vihl: b[0],
+            total: w(2) as usize,
+            ident: w(4) as u16,
+            rsv: fl & 0x8000 != 0,
+            df: fl & 0x4000 != 0,
+            mf: fl & 0x2000 != 0,
+            off: ((fl & 0x1fff) as usize) * 8,
+            ttl: b[8],
+            proto: b[9],
+            src: [b[12], b[13], b[14], b[15]],
+            dst: [b[16], b[17], b[18], b[19]],
+            cksum_ok: sum == 0xffff,
+        }
+    }
+
+    macro_rules! ip_iface {
+        ($dev:ident, $iface:ident, $mtu:expr, $cks:expr) => {
+            let mut $dev = NullDev { medium: Medium::Ip, mtu: $mtu, checksum: $cks };
+            let mut $iface = Interface::new(Config::new(HardwareAddress::Ip), &mut $dev, Instant::from_millis(0));
+            $iface.update_ip_addrs(|a| {
+                a.push(IpCidr::new(IpAddress::Ipv4(LOCAL), 24)).unwrap();
+            });
+        };
+    }
+
+    /// one captured frame must be fragment number `idx` of the datagram: returns its payload length
+    fn check_frag<const CAP: usize>(
+        st: &TxState<CAP>,
+        mtu: usize,
+        want_off: usize,
+        last: bool,
+        ident: u16,
+        ttl: u8,
+        proto: u8,
+        cks_on: bool,
+    ) -> usize {
+        assert!(st.frames == 1, "prop:c12_tx_one_frame_per_call");
+        let len = st.len0;
+        assert!(len <= mtu, "prop:c12_tx_fragment_fits_mtu");
+        assert!(len > IPH, "prop:c12_tx_fragment_carries_data");
+        let h = hdr(&st.buf0[..IPH]);
+        assert!(h.vihl == 0x45, "prop:c12_tx_fragment_header_ihl5");
+        assert!(h.total == len, "prop:c12_tx_fragment_total_len_is_frame_len");
+        assert!(h.ident == ident, "prop:c12_tx_fragments_share_ident");
+        assert!(!h.df && !h.rsv, "prop:c12_tx_fragment_df_clear");
+        assert!(h.mf == !last, "prop:c12_tx_mf_on_all_but_last");
+        assert!(h.off == want_off, "prop:c12_tx_offset_is_running_payload_sum");
+        assert!(last || (len - IPH) % 8 == 0, "prop:c12_tx_non_last_payload_multiple_of_8");
+        assert!(h.ttl == ttl && h.proto == proto, "prop:c12_tx_fragment_keeps_ttl_and_protocol");
+        assert!(h.src == LOCAL.octets() && h.dst == REMOTE.octets(), "prop:c12_tx_fragment_keeps_addresses");
+        if cks_on {
+            assert!(h.cksum_ok, "prop:c12_tx_fragment_header_checksum");
+        }
+        len - IPH
+    }
+
+    /// MTU, application payload length, expected fragment count, capture size (>= MTU), reference size (>= datagram)
+    fn frag_tx<const MTU: usize, const PLEN: usize, const NF: usize, const CAP: usize, const RC: usize>(
+        cks: ChecksumCapabilities,
+        raw: bool,
+    ) {
+        let cks_on = cks.ipv4.tx();
+        ip_iface!(dev, iface, MTU, cks.clone());
+        ip_iface!(rdev, riface, 1500, cks.clone());
+        let payload: [u8; PLEN] = kani::any();
+        let udp = UdpRepr { src_port: kani::any(), dst_port: kani::any() };
+        let ttl: u8 = kani::any();
+        let (proto, iplen) = if raw { (IpProtocol::Unknown(253), PLEN) } else { (IpProtocol::Udp, 8 + PLEN) };
+        let ip = Ipv4Repr { src_addr: LOCAL, dst_addr: REMOTE, next_header: proto, payload_len: iplen, hop_limit: ttl };
+        let protob: u8 = if raw { 253 } else { 17 };
+        // largest 8-aligned payload that fits the MTU behind a 20-byte header (RFC 791)
+        let maxp = ((MTU - IPH) / 8) * 8;
+        assert!(iplen + IPH > MTU && NF == (iplen + maxp - 1) / maxp && NF >= 2 && NF <= 4);
+
+        // reference: the same datagram on a link that needs no fragmentation
+        let mut rs = TxState::<RC>::new();
+        {
+            let pkt = Packet::new_ipv4(ip, if raw { IpPayload::Raw(&payload[..]) } else { IpPayload::Udp(udp, &payload[..]) });
+            let r = riface.inner.dispatch_ip(CapTx { st: &mut rs }, PacketMeta::default(), pkt, &mut riface.fragmenter);
+            assert!(r.is_ok() && rs.frames == 1 && rs.len0 == IPH + iplen, "prop:c12_tx_reference_emission");
+        }
+
+        let mut s0 = TxState::<CAP>::new();
+        let mut s1 = TxState::<CAP>::new();
+        let mut s2 = TxState::<CAP>::new();
+        let mut s3 = TxState::<CAP>::new();
+        {
+            let pkt = Packet::new_ipv4(ip, if raw { IpPayload::Raw(&payload[..]) } else { IpPayload::Udp(udp, &payload[..]) });
+            let r = iface.inner.dispatch_ip(CapTx { st: &mut s0 }, PacketMeta::default(), pkt, &mut iface.fragmenter);
+            assert!(r.is_ok(), "prop:c12_tx_first_fragment_dispatched");
+        }
+        assert!(s0.frames == 1 && s0.len0 >= IPH, "prop:c12_tx_one_frame_per_call");
+        assert!(!iface.fragmenter.finished() && !iface.fragmenter.is_empty(), "prop:c12_tx_unfinished_while_fragments_remain");
+        let ident = hdr(&s0.buf0[..IPH]).ident;
+        let p0 = check_frag(&s0, MTU, 0, false, ident, ttl, protob, cks_on);
+
+        iface.inner.dispatch_ipv4_frag(CapTx { st: &mut s1 }, &mut iface.fragmenter);
+        assert!(iface.fragmenter.finished() == (NF == 2), "prop:c12_tx_finished_exactly_after_last_fragment");
+        let p1 = check_frag(&s1, MTU, p0, NF == 2, ident, ttl, protob, cks_on);
+        let mut p2 = 0;
+        let mut p3 = 0;
+        if NF >= 3 {
+            iface.inner.dispatch_ipv4_frag(CapTx { st: &mut s2 }, &mut iface.fragmenter);
+            assert!(iface.fragmenter.finished() == (NF == 3), "prop:c12_tx_finished_exactly_after_last_fragment");
+            p2 = check_frag(&s2, MTU, p0 + p1, NF == 3, ident, ttl, protob, cks_on);
+        }
+        if NF >= 4 {
+            iface.inner.dispatch_ipv4_frag(CapTx { st: &mut s3 }, &mut iface.fragmenter);
+            assert!(iface.fragmenter.finished(), "prop:c12_tx_finished_exactly_after_last_fragment");
+            p3 = check_frag(&s3, MTU, p0 + p1 + p2, true, ident, ttl, protob, cks_on);
+        }
+        assert!(p0 + p1 + p2 + p3 == iplen, "prop:c12_tx_fragments_carry_whole_datagram");
+
+        // byte k of the datagram's payload, as carried by the fragment covering it
+        let k = any_lt(iplen);
+        let got = if k < p0 {
+            s0.buf0[IPH + k]
+        } else if k < p0 + p1 {
+            s1.buf0[IPH + k - p0]
+        } else if k < p0 + p1 + p2 {
+            s2.buf0[IPH + k - p0 - p1]
+        } else {
+            s3.buf0[IPH + k - p0 - p1 - p2]
+        };
+        assert!(got == rs.buf0[IPH + k], "prop:c12_tx_concatenation_equals_unfragmented_emission");
+        if raw {
+            assert!(got == payload[k], "prop:c12_tx_payload_bytes_exact");
+        } else if k >= 8 {
+            assert!(got == payload[k - 8], "prop:c12_tx_payload_bytes_exact");
+        } else {
+            let uh = [(udp.src_port >> 8) as u8, udp.src_port as u8, (udp.dst_port >> 8) as u8, udp.dst_port as u8,
+                      ((8 + PLEN) >> 8) as u8, (8 + PLEN) as u8];
+            assert!(k >= 6 || got == uh[k], "prop:c12_tx_udp_header_exact");
+        }
+        // the reference header differs only in what fragmentation must change
+        {
+            let rh = hdr(&rs.buf0[..IPH]);
+            assert!(rh.total == IPH + iplen && !rh.mf && rh.off == 0 && rh.ttl == ttl && rh.proto == protob, "prop:c12_tx_reference_emission");
+        }
+        // a further egress pass has nothing left to send
+        crate::vdump!("p0={} p1={} p2={} p3={} ident={}", p0, p1, p2, p3, ident);
+        kani::cover!(iface.fragmenter.finished() && s0.frames + s1.frames + s2.frames + s3.frames == NF, "all fragments emitted");
+        kani::cover!(got != 0 && k + 1 == iplen && k >= p0, "last byte of the datagram carried by a later fragment");
+    }
+
+    // Grid: max fragment payload is 24 (MTU 44), 32 (MTU 52), 48 (MTU 68 and the unaligned MTU 70).
+    // IP payload = 8 (UDP header) + application bytes.
+
+    // @harness props=C12 cfg=KI4 tier=q to=600 mem=6 unwind=12 opts=nomem covers=2 funcs=InterfaceInner::dispatch_ip;InterfaceInner::dispatch_ipv4_frag;DeviceCapabilities::max_ipv4_fragment_size;Fragmenter::finished bounds=MTU_44;_UDP_payload_17_(fragments_24+1);_symbolic_payload_ports_ttl;_Medium::Ip
+    #[kani::proof]
+    pub(crate) fn ipv4_frag_tx_44_17() {
+        frag_tx::<44, 17, 2, 48, 48>(ChecksumCapabilities::ignored(), false);
+    }
+
+    // @harness props=C12 cfg=KI4 tier=q to=600 mem=6 unwind=12 opts=nomem covers=2 funcs=InterfaceInner::dispatch_ip;InterfaceInner::dispatch_ipv4_frag;DeviceCapabilities::max_ipv4_fragment_size;Fragmenter::finished bounds=MTU_44;_UDP_payload_41_(fragments_24+24+1);_symbolic_payload_ports_ttl;_Medium::Ip
+    #[kani::proof]
+    pub(crate) fn ipv4_frag_tx_44_41() {
+        frag_tx::<44, 41, 3, 48, 72>(ChecksumCapabilities::ignored(), false);
+    }
+
+    // @harness props=C12 kind=mustfail cfg=KI4 tier=q to=600 mem=6 unwind=12 opts=nomem
+    #[kani::proof]
+    pub(crate) fn ipv4_frag_tx_must_fail() {
+        ip_iface!(dev, iface, 44, ChecksumCapabilities::ignored());
+        let payload: [u8; 17] = kani::any();
+        let udp = UdpRepr { src_port: 1, dst_port: 2 };
+        let ip = Ipv4Repr { src_addr: LOCAL, dst_addr: REMOTE, next_header: IpProtocol::Udp, payload_len: 25, hop_limit: 64 };
+        let mut s0 = TxState::<48>::new();
+        let pkt = Packet::new_ipv4(ip, IpPayload::Udp(udp, &payload[..]));
+        let _ = iface.inner.dispatch_ip(CapTx { st: &mut s0 }, PacketMeta::default(), pkt, &mut iface.fragmenter);
+        assert!(iface.fragmenter.finished(), "prop:deliberately_false_first_fragment_finishes_datagram");
+    }
 }
